@@ -279,6 +279,23 @@ func checkC06(ix *index, add addFn) {
 			}
 		}
 	}
+	// nothing is made up: whatever the handler is given after the bad packet
+	// arrived is one of the well-formed messages (a packet cut short is not
+	// handed over as if it were complete)
+	{
+		sent := map[string]bool{}
+		for _, o := range ix.sc.Script {
+			if o.Kind == "pkt" && o.Pkt != nil && o.Pkt.Type == TPublish {
+				sent[o.Pkt.Pay] = true
+			}
+		}
+		for j := badAt; j < len(ix.tr) && j < ix.end(); j++ {
+			if q := &ix.tr[j]; q.Kind == "hin" && q.P != nil && !sent[q.P.Pay] && c06Malformed[class] {
+				add("prefix-ok", fmt.Sprintf("after the malformed packet (%s) the handler was given a message nobody sent completely: topic %q, %d payload bytes", class, q.P.Topic, len(q.P.Pay)), map[string]string{"kind": "made-up"})
+				break
+			}
+		}
+	}
 	if !c06Malformed[class] || !ix.complete {
 		return
 	}
